@@ -48,7 +48,9 @@ def checkWellFormed (before after : IR) (emptied : Nat → Bool) (needAddr closu
       -- "incoming control flow edges but no target for them to be redirected to" of remove.py, for a new block
       let reached := after.cfg.any (fun e => e.dst == .block b.id && !(GtirbVerif.IR.Edge.isFall e))
       let codeFollows := after.blocks.any (fun c => c.bi == b.bi && c.isCode && c.size != 0 && c.off ≥ b.off)
-      if reached && !codeFollows then none
+      -- ... or the block is what a whole-block deletion of the batch left of a block created earlier in the batch
+      -- (`emptied`: the recorded `delete` covered all of it and `remove_block` had to keep it)
+      if (reached && !codeFollows) || emptied b.id then none
       else some (mk "zero-sized" s!"block {b.id}" s!"a new block ({b.id}) is zero-sized"))
   -- CFG
   let cfgIssues : List Issue := after.cfg.flatMap (fun e =>
